@@ -274,9 +274,9 @@ func parIngest(w *drv.World, x *LabelExec, op drv.Op) (*drv.Violation, error) {
 		bi := blank[i]
 		b0 := [3]int{bi % g.G[0], (bi / g.G[0]) % g.G[1], bi / (g.G[0] * g.G[1])}
 		l := x.newSV(r)
-		x.M.note(l)
+		x.M.reserve(l)
 		data := genLayout(r, [3]int{g.B, g.B, g.B}, []uint64{l, l + 1}, r.IntN(3) == 0)
-		x.M.note(l + 1)
+		x.M.reserve(l + 1)
 		reqs = append(reqs, proto.Req{Client: fmt.Sprintf("c%d", i+1), Kind: "http", Method: "POST", URL: x.boxURL(op.V, b0, [3]int{1, 1, 1}), Body: u64sToBytes(data)})
 		ws = append(ws, wr{b0, data})
 	}
